@@ -193,6 +193,11 @@ pub fn install_panic_hook() {
         if loc.contains("/verif/harness/") || loc.starts_with("src/") || !IN_GUARD.with(|g| g.get()) {
             eprintln!("HARNESS-PANIC at {loc}: {msg}");
             eprintln!("{}", std::backtrace::Backtrace::force_capture());
+            if !IN_GUARD.with(|g| g.get()) {
+                // a panic in the harness itself (oracle assertion, arithmetic slip): machinery failure, never a verdict
+                eprintln!("MACHINERY: the harness panicked outside the code under test");
+                std::process::exit(2);
+            }
         }
         LAST_PANIC.with(|p| *p.borrow_mut() = Some((msg, loc)));
     }));
